@@ -202,6 +202,12 @@ class StructMember(Typedef):
     def is_dynamic(self):
         return self.bound and not self.size
 
+    def dependencies(self):
+        yield self.type_name
+        if isinstance(self.size, six.string_types):
+            for symbol in re.findall(r"\b[A-Za-z_][A-Za-z0-9_]*", self.size):
+                yield symbol
+
     def __str__(self):
         return self.schema_repr()
 
